@@ -295,6 +295,10 @@ def explore(harness, world, unit_name, max_paths=4000, keep_smt=False, wall_budg
             harness(ctx)
         except PathEnd:
             pass
+        except PyRaise as e:
+            # the code under contract raised where the harness (the caller in the contract) expects it to return: a failed
+            # obligation of the unit, not a fault of the checker
+            ctx.prove("does-not-raise-where-the-contract-calls-it", False, note=f"raised {e.value!r}"[:300])
         # vacuity guard: the path condition under which this path's obligations were discharged must be satisfiable
         if ctx.results and ctx.pc and not getattr(ctx, "ended_by_require", False):
             r = ctx._check()
